@@ -56,9 +56,9 @@ func c11Main(e *Env) (*res.Result, error) {
 }
 
 func c16Main(e *Env) (*res.Result, error) {
-	n := 48
+	n := 160
 	if !e.Quick() {
-		n = 400
+		n = 1200
 	}
 	disabled := disabledTags()
 	forms := specgen.BaseForms()
